@@ -57,7 +57,10 @@ def _params_concrete(kind, coef, exp, pv):
         top.u = P.Vdc(dc=v, ac=v)(p=a, n=b)
     elif kind == 3:
         # pulse source: renamed parameters; unset fields (coef odd) are not exported and must import back as unset
-        top.u = P.Vpulse(v1=v, v2=2 * v, delay=v if coef % 2 == 0 else None, rise=v, fall=v if coef % 3 else None, width=v, period=v)(p=a, n=b)
+        # ... and literals (numeric-looking or not) on the renamed timing fields must come back as the same literals
+        lit = h.Literal("%de-9" % coef) if exp == 0 else h.Literal("%d" % coef) if exp == 1 else h.Literal("t_r/%d" % (abs(coef) + 1))
+        top.u = P.Vpulse(v1=v, v2=2 * v, delay=v if coef % 2 == 0 else None, rise=lit if coef % 2 else v, fall=v if coef % 3 else None,
+                         width=lit if coef % 3 == 0 else v, period=lit if coef % 5 == 0 else v)(p=a, n=b)
         top.u2 = P.R(r=h.Literal("%d" % coef) if exp == 0 else h.Literal("r*%d" % coef))(p=a, n=b)  # numeric-looking literal on a Scalar field
     elif kind == 4:
         top.u = P.Mos(w=v, l=v, npar=max(1, abs(coef)), tp=P.MosType.PMOS if coef % 2 else P.MosType.NMOS,
